@@ -43,6 +43,9 @@ type TCase struct {
 	// same callback, ends it before its Start goroutine has necessarily run: 1 SendExitMeta, 2 the owner
 	// returns an error, 3 the owner panics, 4 the owner is killed at once
 	EarlyEnd int `json:"early_end,omitempty"`
+	// InitKill (actor): the target hands its pid out from inside Init and a client calls Node.Kill
+	// on it at once - while Init is still running the process is not known to the node yet
+	InitKill bool `json:"init_kill,omitempty"`
 }
 
 type tMsg struct {
@@ -60,6 +63,7 @@ func genTCase(r *simkit.Rand, tier string, causes bool) *TCase {
 	c.Logger = c.Kind == "actor" && r.Chance(0.25)
 	c.SelfSend = simkit.Pick(r, 0, 0, 1, 2)
 	c.InitSelf = simkit.Pick(r, 0, 0, 1)
+	c.InitKill = c.Kind == "actor" && r.Chance(0.1)
 	c.NodeStop = r.Chance(0.3)
 	nd := r.Range(2, 4)
 	maxOps := 5
@@ -151,6 +155,7 @@ func shrinkTCase(c *TCase) []any {
 	for _, f := range []func(n *TCase) bool{
 		func(n *TCase) bool { x := n.SelfSend > 0; n.SelfSend = 0; return x },
 		func(n *TCase) bool { x := n.InitSelf > 0; n.InitSelf = 0; return x },
+		func(n *TCase) bool { x := n.InitKill; n.InitKill = false; return x },
 		func(n *TCase) bool { x := n.Logger; n.Logger = false; return x },
 		func(n *TCase) bool { x := n.Trap; n.Trap = false; return x },
 		func(n *TCase) bool { x := n.NodeStop; n.NodeStop = false; return x },
@@ -315,7 +320,25 @@ func (t *tRun) spawnTarget() bool {
 	var factory gen.ProcessFactory
 	switch c.Kind {
 	case "actor", "meta":
-		th.Init = func(p *Probe, args ...any) error { initSelf(p); return nil }
+		th.Init = func(p *Probe, args ...any) error {
+			if c.InitKill && c.Kind == "actor" {
+				pid := p.PID()
+				killed := make(chan struct{})
+				e.Go("initkiller", func() {
+					defer close(killed)
+					err := n.Kill(pid)
+					if err == nil {
+						t.addCause("kill")
+					}
+					e.Logf("kill of the target while it is in Init -> %v", err)
+				})
+				e.Probe("kill-aimed-at-init")
+				// Init goes on when the Kill call has returned
+				e.WaitChan(killed, time.Minute)
+			}
+			initSelf(p)
+			return nil
+		}
 		th.Message = func(p *Probe, from gen.PID, m any) error {
 			if s, ok := m.(string); ok && s == "setup" {
 				a, err := p.CreateAlias()
